@@ -13,6 +13,7 @@ EXTENDS HG, Json
 CONSTANTS NN,        \* nodes are 0..NN-1
           EdgeIds,   \* explicit edge ids offered to the calls
           MaxUid, MaxEdges, MaxAttr, MaxLevel,
+          WithFreeze, \* TRUE: freeze is part of the alphabet (C18)
           Rich,      \* TRUE: the large alphabet (thorough tier)
           Emit       \* TRUE: print alphabet and states as JSON
 
@@ -87,7 +88,8 @@ Alphabet ==
   \cup {[O("cleanup") EXCEPT !.b1 = t[1], !.b2 = t[2], !.b3 = t[3], !.b4 = t[4], !.b5 = t[5]] :
           t \in {u \in BOOLEAN \X BOOLEAN \X BOOLEAN \X BOOLEAN \X BOOLEAN : Rich \/ u[4] = u[5]}}
   \cup {O("convert_labels_to_integers"), O("largest_connected_hypergraph")}
-  \cup (IF Rich THEN {[O("set_net_attr") EXCEPT !.k = 1, !.v = <<0, 1>>], O("freeze")} ELSE {})
+  \cup (IF Rich THEN {[O("set_net_attr") EXCEPT !.k = 1, !.v = <<0, 1>>]} ELSE {})
+  \cup (IF Rich \/ WithFreeze THEN {O("freeze")} ELSE {})
 
 Ords(op) == IF op.name \in {"add_edge", "add_edges_from", "add_weighted_edges_from", "update"}
               THEN Perms(Nodes) ELSE {SortSeqOf(Nodes)}
